@@ -29,10 +29,23 @@ Check(c) ==
          c.calls = (IF C # {} THEN 1 ELSE 0)                    \* exactly once if either is cancelled, never otherwise
     [] OTHER -> FALSE
 
+\* "built": the result at the very moment the constructor returns: already cancelled if an input already is (for the
+\* conflated context: if all are); not cancelled if none was (constructions that race a cancellation are exempt)
+Built(c) ==
+  LET P == SetOf(c.pre) IN
+  CASE c.kind = "combine" ->
+         LET others == {i \in 1..c.n : i \notin SetOf(c.nils)} IN
+         (0 \in P \/ (P \cap others) # {}) => c.res0
+    [] c.kind = "conflated" -> ((1..c.n) \subseteq P) => c.res0
+    [] OTHER -> TRUE
+BuiltLive(c) == (~c.race /\ SetOf(c.pre) = {}) => ~c.res0
+
 VARIABLE l
 TVInit == l = 1 /\ TLCSet(1, 0) /\ TLCSet(2, 0)
 Cur == TLog[l]
-CaseOK == IF Cur.ev = "obs" THEN Check(Cur) ELSE IF Cur.ev = "final" THEN Cur.leaked = 0 ELSE TRUE
+CaseOK == IF Cur.ev = "obs" THEN Check(Cur)
+          ELSE IF Cur.ev = "built" THEN Built(Cur) /\ BuiltLive(Cur)
+          ELSE IF Cur.ev = "final" THEN Cur.leaked = 0 ELSE TRUE
 TCase ==
   /\ l <= NL
   /\ IF CaseOK THEN TRUE ELSE PrintT(<<"TVBAD", l>>) /\ TLCSet(2, TLCGet(2) + 1)
